@@ -257,9 +257,14 @@ SubNames == {"bump", "pick", "helper", "zone", "vcl_recv", "vcl_deliver", "mock_
 \* acl internal { "192.0.2.0"/24; } - the addresses the pool uses
 AclAnswer(v) == IF v = "192.0.2.5" THEN "in" ELSE IF v = "10.0.0.1" THEN "out" ELSE "error"
 
+\* table fixture STRING { "k": "fx", "mode": "blue" } in the test file
+Fixture0 == [k |-> "fx", mode |-> "blue"]
+
 FreshEnv ==
   [ hdr   |-> [h \in Hdrs |-> NOTSET],           \* req.http.*
-    tbl   |-> "v0",                              \* value of key "k" of table tbl (parsed anew by ProcessInit)
+    tbl   |-> [k |-> "v0", mode |-> NOTSET],     \* table tbl of the main VCL (parsed anew by ProcessInit), per key
+    fixture |-> Fixture0,                        \* table `fixture` of the TEST FILE: parsed once, its property nodes are
+                                                 \* shared by every test of the file (tester.factoryDefinitions)
     ovr   |-> "DEFAULT",                         \* ctx.OverrideVariables["client.geo.country_code"]
     host  |-> "localhost",                       \* req.http.Host / ctx.OriginalHost
     mocks |-> [helper |-> "", pick |-> ""],      \* ctx.MockedSubroutines / MockedFunctioncalSubroutines
@@ -421,6 +426,18 @@ CoreTests ==
                                        <<"a_hdr_eq", "Zalt", "a1">> >>),
     zone_bad     |-> T(RECV, FALSE, << <<"sethdr", "C", "abc">>, <<"call", "zone">>, <<"const", "true", TRUE>> >>),
     zone_noguard |-> T(RECV, FALSE, << <<"call", "zone">>, <<"log", "unreachable">> >>),
+    merge_set    |-> T(RECV, FALSE, << <<"tblmerge">>, <<"a_tblk_eq", "mode", "blue">>, <<"a_tbl_eq", "fx">>,
+                                       <<"tblsetk", "mode", "green">>, <<"a_tblk_eq", "mode", "green">>, <<"tblset", "own">> >>),
+    merge_read   |-> T(RECV, FALSE, << <<"a_tblk_notset", "mode">>, <<"tblmerge">>, <<"a_tblk_eq", "mode", "blue">>,
+                                       <<"a_tbl_eq", "fx">> >>),
+    merge_twice  |-> T(<< "RECV", "DELIVER" >>, FALSE, << <<"tblmerge">>, <<"tblsetk", "k", "own">>, <<"a_tbl_eq", "own">>,
+                                       <<"tblmerge">>, <<"a_tbl_eq", "fx">>, <<"tblsetk", "mode", "red">> >>),
+    mock_restore |-> T(RECV, FALSE, << <<"mock", "helper", "mock_helper">>, <<"restore_mock", "helper">>, <<"call", "vcl_recv">>,
+                                       <<"a_hdr_eq", "H", "orig">>, <<"mock", "pick", "mock_pick">>, <<"mock", "helper", "mock_helper">>,
+                                       <<"restore_all">>, <<"call", "vcl_recv">>, <<"a_hdr_eq", "V", "other">>,
+                                       <<"a_not_called", "mock_helper">> >>),
+    inject_twice |-> T(RECV, FALSE, << <<"inject", "JP">>, <<"inject", "US">>, <<"a_var_eq", "US">> >>),
+    host_twice   |-> T(RECV, FALSE, << <<"host", "a.example.org">>, <<"host", "b.example.org">>, <<"a_host_eq", "b.example.org">> >>),
     empty        |-> T(RECV, FALSE, << >>)
   ]
 
@@ -455,7 +472,14 @@ RunOps(P, ops, i, env, scope, np) ==
         Error(e)  == [env |-> e, verdict |-> "fail", kind |-> "error", np |-> np, nf |-> 0]
     IN
     CASE o[1] = "sethdr" -> Go([env EXCEPT !.hdr[o[2]] = o[3]])
-      [] o[1] = "tblset" -> Go([env EXCEPT !.tbl = o[2]])
+      [] o[1] = "tblset" -> Go([env EXCEPT !.tbl.k = o[2]])
+      \* testing.table_set(tbl, key, value): Testing_table_MergeProperty puts a NEW property node in the place of the
+      \* entry - the node that was there (possibly one of the fixture's) is not written to
+      [] o[1] = "tblsetk" -> Go([env EXCEPT !.tbl[o[2]] = o[3]])
+      \* testing.table_merge(tbl, fixture): the fixture's property nodes themselves become entries of tbl
+      [] o[1] = "tblmerge" -> Go([env EXCEPT !.tbl = [key \in DOMAIN env.tbl |-> env.fixture[key]]])
+      [] o[1] = "restore_mock" -> Go([env EXCEPT !.mocks[o[2]] = ""])
+      [] o[1] = "restore_all"  -> Go([env EXCEPT !.mocks = [n \in DOMAIN env.mocks |-> ""]])
       [] o[1] = "inject" -> Go([env EXCEPT !.ovr = o[2]])
       [] o[1] = "mock"   -> Go([env EXCEPT !.mocks[o[2]] = o[3]])
       [] o[1] = "host"   -> Go([env EXCEPT !.host = o[2]])
@@ -474,7 +498,9 @@ RunOps(P, ops, i, env, scope, np) ==
                                                    [] r.ctl = "restart" -> "RESTART"])
       [] o[1] = "a_hdr_eq"     -> Chk(env.hdr[o[2]] = o[3])
       [] o[1] = "a_hdr_notset" -> Chk(env.hdr[o[2]] = NOTSET)
-      [] o[1] = "a_tbl_eq"     -> Chk(env.tbl = o[2])
+      [] o[1] = "a_tbl_eq"     -> Chk(env.tbl.k = o[2])
+      [] o[1] = "a_tblk_eq"    -> Chk(env.tbl[o[2]] = o[3])
+      [] o[1] = "a_tblk_notset" -> Chk(env.tbl[o[2]] = NOTSET)
       [] o[1] = "a_var_eq"     -> Chk(env.ovr = o[2])
       [] o[1] = "a_var_ne"     -> Chk(env.ovr # o[2])
       [] o[1] = "a_host_eq"    -> Chk(env.host = o[2])
@@ -545,7 +571,8 @@ Setup(t) ==
           /\ t \in Pool /\ \A i \in 1..Len(order) : order[i] # t
           /\ NFam(Append(order, t)) <= MaxFam
   /\ order' = Append(order, t)
-  /\ prev' = cur /\ cur' = FreshEnv /\ curId' = curId + 1
+  \* a fresh interpreter - but the definitions of the test file (defs) are the same objects for every test
+  /\ prev' = cur /\ cur' = [FreshEnv EXCEPT !.fixture = cur.fixture] /\ curId' = curId + 1
   /\ boundTo' = curId + 1               \* function.Inject(tf.TestingFunctions(i, ...)) overrides the global table
   /\ si' = 1 /\ pc' = "running"
   /\ UNCHANGED << main, cov, counter, covhit, cases >>
@@ -602,6 +629,8 @@ VerdictFaithful == \A i \in 1..Len(cases) :
 CountsAddUp     == Summary.passed + Summary.failed + Summary.skipped = Summary.total
 ExitFaithful    == pc = "idle" => (ExitMech = 1 <=> \E i \in 1..Len(cases) : cases[i].mech.verdict = "fail")
 BoundCurrent    == pc = "running" => boundTo = curId
+\* nothing a test does writes to the shared definitions of the test file
+FixtureIntact   == cur.fixture = Fixture0
 \* without coverage nothing deviates at all
 NoCovNoDeviation == ~cov => (covhit = {} /\ \A i \in 1..Len(cases) : ~cases[i].dbl)
 \* only registered markers are ever hit
@@ -626,7 +655,7 @@ Emit ==
       exitReq |-> ExitReq, exitMech |-> ExitMech])>>)
 
 EmitMain ==
-  PrintT(<<"BEHAVIOUR", ToJson([kind |-> "main", main |-> main, prog |-> MainProg(main), testsubs |-> TestSubs,
+  PrintT(<<"BEHAVIOUR", ToJson([kind |-> "main", main |-> main, prog |-> MainProg(main), testsubs |-> TestSubs, fixture |-> Fixture0,
                                  nmarkers |-> Cardinality(UNION {{ <<n, j>> : j \in 1..Len(Instrument(MainProg(main))[n].body)} :
                                                                    n \in DOMAIN MainProg(main)})])>>)
 
